@@ -65,6 +65,9 @@ def main():
             open(full, "w").write(orig)
         print("tried", tried, "kept", kept)
     elif mode == "eval":
+        import shutil, tempfile
+        # the checks rewrite /verif/evidence on every run: keep the clean-tree records and put them back afterwards
+        keep = tempfile.mkdtemp(prefix="evidence_keep_"); shutil.copytree("/verif/evidence", os.path.join(keep, "evidence"))
         res = []
         for f in sorted(os.listdir(OUT)):
             if not f.endswith(".diff") or (len(sys.argv) > 2 and f < sys.argv[2]): continue
@@ -80,4 +83,5 @@ def main():
             meta["detected"] = det; res.append(meta)
             print(f, meta["file"], meta["line"], meta["op"], "|", meta["text"][:80], "|", det, flush=True)
         json.dump(res, open(os.path.join(OUT, "results.json"), "w"), indent=1)
+        shutil.rmtree("/verif/evidence"); shutil.copytree(os.path.join(keep, "evidence"), "/verif/evidence"); shutil.rmtree(keep)
 main()
